@@ -16,7 +16,7 @@ func concatCols(a, b *CNode) *CNode {
 	t := a.T
 	c := &CNode{T: t}
 	switch t.Kind {
-	case "fixed", "uuid", "str", "enum", "lc":
+	case "fixed", "uuid", "str", "json", "enum", "lc":
 		c.Rows = append(append([][]byte{}, a.Rows...), b.Rows...)
 	case "bool":
 		c.Bools = append(append([]byte{}, a.Bools...), b.Bools...)
